@@ -206,6 +206,25 @@ func runC06(p *Prog, r *Report) {
 	r.Assumptions = []string{"go/types, checker CFG", "standard-library facts listed in stdEnsures/stdRequires (io.ReadFull, Read, ReadMsgUDPAddrPort, copy, append, slices.Grow, encoding/binary, cipher.AEAD Open/Seal/Overhead with a 16-byte tag)", "interface contract of UnpackInPlace (0 <= packetStart, 0 <= packetLen, packetStart+packetLen <= len(b)) at the relay call sites in package service"}
 	c06SelfTest(r)
 	c06R1(p, r)
+	// the reviewed site direct.(*DirectPacketServerPackUnpacker).PackInPlace:IPPort rests on a fact about
+	// the configuration loader; that fact is decided here too (same analysis as C18-R4), so that a
+	// change to the loader that lets a domain address reach IPPort() is a C06-R1 violation as well
+	{
+		sub := NewReport("C06", "quick")
+		c18R4(p, sub)
+		nGate := 0
+		for _, o := range sub.Obs {
+			if strings.Contains(o.Construct, "target-only-needs-ip-address") || strings.Contains(o.Construct, "enabled-transport-has-valid-address") || strings.Contains(o.Construct, "addresses-checked-before-use") {
+				o.Rule = "C06-R1"
+				o.Construct = "config-gate-of-reviewed-accessor:" + o.Construct
+				r.Obs = append(r.Obs, o)
+				nGate++
+			}
+		}
+		if nGate < 4 {
+			r.Fail("C06-R1", "direct.(*DirectPacketServerPackUnpacker).PackInPlace:IPPort:config-gate", "", "the configuration gate that keeps a domain address away from IPPort() in target-only mode was not found")
+		}
+	}
 	c06R2(p, r)
 	c06R3(p, r)
 	c06R4(p, r)
@@ -252,8 +271,8 @@ var c06PanicTable = map[string]string{
 // (names of receivers, parameters, locals and fields do not enter the key), each with
 // the reason the receiver is known to be of the required kind.
 var c06AddrReviewed = map[string]string{
-	"ss2022.(*UDPClient).NewSession:ResolveIPPort on recv.field:conn.Addr":                "server address of a configured client: service.(*ClientConfig).checkAddresses refuses a UDP-enabled client without a valid address (C18-R4)",
-	"direct.(*ShadowsocksNoneUDPClient).NewSession:ResolveIPPort on recv.field:conn.Addr": "server address of a configured client: validated by checkAddresses (C18-R4)",
+	"ss2022.(*UDPClient).NewSession:ResolveIPPort on recv.field:conn.Addr":                "server address of a configured client: service.(*ClientConfig).checkAddresses refuses a UDP-enabled client without a valid address (decided by the same analysis as C18-R4, run as part of this rule)",
+	"direct.(*ShadowsocksNoneUDPClient).NewSession:ResolveIPPort on recv.field:conn.Addr": "server address of a configured client: validated by checkAddresses (decided as part of this rule, same analysis as C18-R4)",
 	"direct.(*Socks5UDPClient).NewSession:ResolveIPPort on local:conn.Addr":               "address parsed from the SOCKS5 UDP ASSOCIATE reply on its success edge (socks5.ClientUDPAssociate returns a non-zero Addr or an error); the call itself sits in the shared newSession helper",
 	"direct.(*Socks5AuthUDPClient).NewSession:ResolveIPPort on local:conn.Addr":           "same, through socks5.ClientUDPAssociateUsernamePassword",
 	"direct.(*DirectPacketClientPacker).PackInPlace:Domain on param:conn.Addr":            "reached only on the !IsIP() edge (directly or in the cache helper) with a target address that came out of a server unpacker's successful parse (never the zero Addr)",
@@ -267,7 +286,7 @@ var c06AddrReviewed = map[string]string{
 	"router.(DestResolvedGeoIPCountryCriterion).Meet:Domain on param.field:conn.Addr":     "after the IsIP() branch returned; non-zero TargetAddr",
 	"netio.(*UDPClientSession).AppendPack:Domain on param:conn.Addr":                      "else branch of IsIP(); destination of a datagram accepted by a server unpacker (non-zero)",
 	"netio.(*UDPClientSession).AppendPack:ResolveIP on param:conn.Addr":                   "same: non-zero destination address",
-	"direct.(*DirectPacketServerPackUnpacker).PackInPlace:IPPort on recv.field:conn.Addr": "executed only in target-only mode, which service.(*ServerConfig).Initialize builds only with an IP tunnelRemoteAddress (decided by C18-R4; fixed by 2f1e5cc)",
+	"direct.(*DirectPacketServerPackUnpacker).PackInPlace:IPPort on recv.field:conn.Addr": "executed only in target-only mode, which service.(*ServerConfig).Initialize builds only with an IP tunnelRemoteAddress (decided by the same analysis as C18-R4, run as part of this rule; fixed by 2f1e5cc)",
 }
 
 // c06AddrReviewedCount: number of reviewed sites sharing one role key (default 1); a further
